@@ -18,7 +18,9 @@ RULE = (
     "Cases: kind 'phys' = order n in 2..4, nf in 3..6 with the literature beta coefficients (Herzog et al. 2017), "
     "kind 'rand' = order 2..4 with random positive beta0 in [4,12], b1 in [0.3,30], b2 in [0.3,1000], b3 in "
     "[1,5000] (log-uniform), kind 'pert' (order 4 only) = physical b's each scaled by an independent factor in "
-    "[0.8,1.2]; a0,a1 log-uniform in [0.001,0.1], either order, |ln(a1/a0)|>=0.05 by construction. For each case "
+    "[0.8,1.2]. Coupling pairs in [0.001,0.1], either order: 'far' = log-uniform with |ln(a1/a0)|>=0.05 by "
+    "construction (4/9), 'near' = a1 = a0(1 +- delta) with delta = 10^-(k+u), k uniform in 3..9, u in [0,1] (4/9), "
+    "'equal' = a1 == a0 (1/9), each combined with every kind. For each case "
     "every exact and every expanded integral of that order is compared (j12, j23/j13 | j34/j24/j14 | as4 "
     "j33/j23/j13/j03 + roots). Random order-4 b's violating the closed cubic formula's real-arithmetic "
     "precondition (4 d1^3+d2^2 >= 0 and d2+sqrt(.) > 0) or sitting next to its boundary (|d2|/(d2+sqrt(.)) > 1e3; "
@@ -28,9 +30,15 @@ RULE = (
 ASSUMPTIONS = [
     "reference = mpmath tanh-sinh quadrature in ln(a) at 30 digits with its own error estimate < 1e-18 (else harness error)",
     "beta coefficients of 'phys' cases are the literature tables typed for C20, passed as floats to both sides",
-    "tolerance |code-ref| <= 1e-10*|ref| + 1e-13*S, S = sum of magnitudes of the terms of the closed form "
-    "(each logarithm counted as max(1,|log|): its argument carries one rounding error), so cancellation between "
-    "partial fractions at tiny |a1-a0| is not reported as a violation (absolute effect < 1e-18)",
+    "tolerance |code-ref| <= 1e-10*|ref| + 2e-14*S (90 eps; observed maximum 1.1 eps*S). S is the rounding floor "
+    "of the closed form F(a1)-F(a0) in units of eps, derived term by term: a term c*log(w) contributes "
+    "|c|(1+|log w|) (w carries a relative rounding error -> absolute eps on the log, plus the relative error of log "
+    "itself), a term c*atan(z) contributes |c|(|atan z| + |z/(1+z^2)|), a power term c*(a1^p-a0^p) contributes "
+    "|c|(a1^p+a0^p), combinations j = j12 - b1 j2x - ... add their parts with |b_i|. For nearly equal couplings the "
+    "value is O(delta) while the floor stays O(eps*|primitive|), so the comparison is relative to |value| down to "
+    "delta ~ 1e-3 and limited by the floor below (relative resolution 2e-14/delta: 2e-4 at delta = 1e-10)",
+    "the reference for nearly equal couplings is the same 30-digit quadrature over [a0,a1] (error guard relative: "
+    "< 1e-15 |value|); at a1 == a0 the reference is exactly 0",
     "expanded integral at order n keeps powers a^p, p<=n-1, and the logarithm (module docstring of "
     "eko.kernels.evolution_integrals: 'until O(a^(m+1)) for N^mLO')",
     "roots: residual |1+b1 r+b2 r^2+b3 r^3| <= 1e-9*(1+|b1 r|+|b2 r^2|+|b3 r^3|), pairwise distance > 1e-6*max|r|, "
@@ -42,7 +50,8 @@ LEVEL_TEXT = (
 )
 
 TOL_REL = 1e-10
-TOL_CANCEL = 1e-13
+TOL_CANCEL = 2e-14
+A_LO, A_HI = 0.001, 0.1
 
 
 def budget(tier):
@@ -54,7 +63,19 @@ def budget(tier):
 @st.composite
 def _case(draw):
     kind = draw(st.sampled_from(["phys", "phys", "rand", "pert"]))
-    a0, a1 = draw(vs.coupling_pair(0.001, 0.1, 0.05))
+    pair = draw(st.sampled_from(["far"] * 4 + ["near"] * 4 + ["equal"]))
+    if pair == "far":
+        a0, a1 = draw(vs.coupling_pair(A_LO, A_HI, 0.05))
+    else:
+        # nearly equal couplings a1 = a0 (1 +- delta), delta log-uniform in [1e-10, 1e-3], or exactly equal
+        a0 = draw(vs.log_floats(A_LO, A_HI))
+        a1 = a0
+        if pair == "near":
+            # decade drawn first so that every decade of [1e-10, 1e-3] is populated
+            delta = 10.0 ** (-draw(st.integers(3, 9)) - draw(vs.floats(0.0, 1.0)))
+            a1 = a0 * (1 + delta) if draw(st.booleans()) else a0 * (1 - delta)
+            if not A_LO <= a1 <= A_HI:  # reflect at the border of the domain
+                a1 = a0 * a0 / a1
     case = {"kind": kind, "a0": a0, "a1": a1}
     if kind == "phys":
         case["n"] = draw(st.integers(2, 4))
@@ -139,7 +160,12 @@ def check_case(case):
     res = CaseResult()
     nf6 = case.get("nf") == 6
     res.nontrivial = bool(nf6 or n == 4 or a0 > a1)
-    res.classes = [f"{case['kind']}/n={n}", "a0>a1" if a0 > a1 else "a0<a1"]
+    res.classes = [f"{case['kind']}/n={n}", "a0>a1" if a0 > a1 else ("a0<a1" if a0 < a1 else "a0==a1")]
+    if a0 == a1:
+        res.classes.append("step:equal")
+    else:
+        rel = abs(a1 - a0) / a0
+        res.classes.append("step:far" if rel > 2e-3 else f"step:1e{math.floor(math.log10(rel))}")
     if nf6:
         res.classes.append("nf=6")
     if n >= 3:
@@ -160,7 +186,14 @@ def check_case(case):
     betas = [mp.mpf(beta0)] + [mp.mpf(x) * mp.mpf(beta0) for x in b]
     mb0 = mp.mpf(beta0)
     L = abs(mp.log(mp.mpf(a1) / mp.mpf(a0)))
-    lg = lambda z: max(mp.mpf(1), abs(z))  # noqa: E731
+    # rounding floor of log(w): the argument w carries a relative rounding error eps (-> absolute eps on the
+    # logarithm), the logarithm itself a relative one (-> eps |log|)
+    lg = lambda z: 1 + abs(z)  # noqa: E731
+
+    def at_floor(z):
+        # same for atan(z): eps |z atan'(z)| from the argument, eps |atan z| from the function
+        return abs(mp.atan(z)) + abs(z / (1 + z * z))
+
     extra = f"[a0={a0!r}, a1={a1!r}, beta0={beta0!r}, b={b!r}]"
 
     from eko.kernels import as4_evolution_integrals as a4
@@ -206,7 +239,7 @@ def check_case(case):
         b1, b2 = mp.mpf(b[0]), mp.mpf(b[1])
         beta2 = b2 * mb0
         Delta = mp.sqrt(mp.mpc(4 * b2 - b1**2))
-        at = abs(mp.atan((b1 + 2 * a1 * b2) / Delta) / Delta) + abs(mp.atan((b1 + 2 * a0 * b2) / Delta) / Delta)
+        at = (at_floor((b1 + 2 * a1 * b2) / Delta) + at_floor((b1 + 2 * a0 * b2) / Delta)) / abs(Delta)
         lg34 = lg(mp.log((1 + a1 * (b1 + b2 * a1)) / (1 + a0 * (b1 + b2 * a0))))
         cs34 = lg34 / (2 * abs(beta2)) + abs(b1 / beta2) * at
         cs24 = 2 / mb0 * at
